@@ -36,7 +36,7 @@ RULE = ("entries: 3 real cache entries (different sources / environments); every
         "subset through FileSystemBytecodeCache files and a truncating memcached client.  crash points: before / after "
         "temp-file creation, after each write, before / after os.replace, as kill and as OSError, with and without an "
         "older entry at the real name.  histories: all sequences up to length L over {load by env0, load by env1, modify "
-        "source (2 versions), clear} for 11 pairs of option sets (equal, autoescape, trim_blocks, sandbox, async, lstrip_blocks, keep_trailing_newline).  distinct = "
+        "source (2 versions), clear} for 13 pairs of option sets (equal, autoescape, trim_blocks, sandbox, async, lstrip_blocks, keep_trailing_newline, native vs regular environment).  distinct = "
         "(kind, parameters); non-trivial = truncation inside the pickled checksum or the code, a crash after at least "
         "one write, or a history in which the second environment loads after the first.")
 
@@ -474,6 +474,9 @@ def make_env(jinja2, oid, loader, bcc):
         return jinja2.Environment(lstrip_blocks=True, **kw)
     if oid == 6:
         return jinja2.Environment(keep_trailing_newline=True, **kw)
+    if oid == 7:
+        from jinja2.nativetypes import NativeEnvironment
+        return NativeEnvironment(**kw)
     return jinja2.Environment(**kw)
 
 
@@ -503,7 +506,8 @@ def text_of(s):
 
 def render(t):
     try:
-        return t.render(**CTX)
+        out = t.render(**CTX)
+        return out if isinstance(out, str) else "native:" + repr(out)
     except Exception as e:  # noqa
         return "X:" + type(e).__name__
 
@@ -515,7 +519,7 @@ def run_shared(ctx, jinja2, only=None):
     ops_alpha = ["l:0:1", "l:1:1", "m:1:8", "m:1:7", "c"]
     # one pair per class of compile-relevant option (Model/BcOpt.v): autoescape, trim_blocks, sandboxed, async, lstrip_blocks,
     # keep_trailing_newline — in both directions where the direction matters
-    pairs = [(0, 0), (0, 1), (1, 0), (0, 2), (0, 3), (3, 0), (1, 1), (0, 4), (4, 0), (0, 5), (0, 6)]
+    pairs = [(0, 0), (0, 1), (1, 0), (0, 2), (0, 3), (3, 0), (1, 1), (0, 4), (4, 0), (0, 5), (0, 6), (0, 7), (7, 0)]
     hist = [list(h) for n in range(1, L + 1) for h in itertools.product(ops_alpha, repeat=n)]
     extra = [list(h) for i, h in enumerate(itertools.product(ops_alpha, repeat=L + 1)) if i % 3 == 0] if ctx.tier == "thorough" else \
         [[ctx.rng.choice(ops_alpha) for _ in range(ctx.rng.randint(4, 7))] for _ in range(60)]
@@ -619,6 +623,39 @@ def run_shared(ctx, jinja2, only=None):
                 ctx.model_mismatch("K-rt BaseLoader.load with a shared bytecode cache", case, expect_model, got, None)
         elif got != expect_model:
             ctx.model_mismatch("K-rt BaseLoader.load with a shared bytecode cache", case, expect_model, got, None)
+        else:
+            ctx.validated()
+    shutil.rmtree(d, ignore_errors=True)
+
+
+def run_native_pair(ctx, jinja2):
+    """NativeEnvironment vs Environment on one cache: native code does not stringify its output nodes"""
+    from jinja2.bccache import FileSystemBytecodeCache
+    from jinja2.nativetypes import NativeEnvironment
+    d = os.path.join(ctx.bdir, "nativepair")
+    for first in ("regular", "native"):
+        shutil.rmtree(d, ignore_errors=True)
+        os.makedirs(d)
+        bcc = FileSystemBytecodeCache(d)
+        loader = jinja2.DictLoader({"t": "{{ o }}"})
+        envs = {"regular": jinja2.Environment(loader=loader, bytecode_cache=bcc, cache_size=0),
+                "native": NativeEnvironment(loader=loader, bytecode_cache=bcc, cache_size=0)}
+        o = Obj()
+        second = "native" if first == "regular" else "regular"
+        outs = []
+        for k in (first, second):
+            try:
+                r = envs[k].get_template("t").render(o=o)
+                outs.append("object" if r is o else "str" if isinstance(r, str) else type(r).__name__)
+            except Exception as e:  # noqa
+                outs.append("X:" + type(e).__name__)
+        want = ["str", "object"] if first == "regular" else ["object", "str"]
+        case = {"kind": "nativepair", "first": first, "rendered": outs}
+        ctx.case(key=("nativepair", first))
+        ctx.count("shared_native_regular")
+        if outs != want:
+            ctx.reject(case, f"{first} environment loaded '{{{{ o }}}}' first, then the {second} one through the same cache: results {outs}, each "
+                             f"environment's own compilation gives {want}", SHARED_SIG)
         else:
             ctx.validated()
     shutil.rmtree(d, ignore_errors=True)
@@ -856,6 +893,68 @@ def run_options(ctx, jinja2):
     shutil.rmtree(d, ignore_errors=True)
 
 
+# ------------------------------------------------------------------------------------------- one source under several names
+def run_aliases(ctx, jinja2, only=None):
+    """ONE environment whose compilation depends on the template NAME (autoescape=select_autoescape): the same file reached
+    under several spellings of its name, and equal sources stored under different names, loaded one after the other through
+    one bytecode cache — each load must render what the same environment renders without a bytecode cache"""
+    from jinja2.bccache import FileSystemBytecodeCache, MemcachedBytecodeCache
+    base = os.path.join(ctx.bdir, "aliases")
+
+    class Client:
+        def __init__(self):
+            self.d = {}
+
+        def get(self, key):
+            return self.d.get(key)
+
+        def set(self, key, value, timeout=None):
+            self.d[key] = value
+
+    body = "{{ x }}|{% if true %}y{% endif %}"
+    fs_names = ["page.html", "./page.html", "/page.html", "page.html/.", "page.html/", ".//page.html", "sub/page.html", "page.txt", "page"]
+    dict_names = ["a.html", "a.txt", "a.HTML", "a.html.j2", "dir/a.html", "a"]
+    for kind, names in (("fs", fs_names), ("dict", dict_names)):
+        for backend in ("fs", "mem"):
+            pairs = [(a, b) for a in names for b in names if a != b]
+            for (a, b) in pairs:
+                if only is not None and (only.get("loader"), only.get("backend"), only.get("first"), only.get("second")) != (kind, backend, a, b):
+                    continue
+                shutil.rmtree(base, ignore_errors=True)
+                os.makedirs(base + "/tpl/sub")
+                os.makedirs(base + "/cache")
+                for fn in ("page.html", "sub/page.html", "page.txt", "page"):
+                    open(os.path.join(base, "tpl", fn), "w").write(body)
+                loader = jinja2.FileSystemLoader(base + "/tpl") if kind == "fs" else jinja2.DictLoader({n: body for n in dict_names})
+                client = Client()
+
+                def mk(cache):
+                    bcc = None if not cache else FileSystemBytecodeCache(base + "/cache") if backend == "fs" else MemcachedBytecodeCache(client)
+                    return jinja2.Environment(loader=loader, autoescape=jinja2.select_autoescape(["html", "j2"]), bytecode_cache=bcc, cache_size=0)
+                env, ref = mk(True), mk(False)
+                outs, wants = [], []
+                for n in (a, b, a):
+                    for e, acc in ((env, outs), (ref, wants)):
+                        try:
+                            acc.append(e.get_template(n).render(x="<b>"))
+                        except jinja2.TemplateNotFound:
+                            acc.append("NF")
+                        except Exception as ex:  # noqa
+                            acc.append("X:" + type(ex).__name__)
+                case = {"kind": "aliases", "loader": kind, "backend": backend, "first": a, "second": b}
+                ctx.case(sample=dict(case, rendered=outs) if len(ctx.samples) < 8 and a == "page.html" and b == "page.html/." else None,
+                         key=("aliases", kind, backend, a, b))
+                ctx.count("aliases_" + kind)
+                if only is not None:
+                    print("with cache:", outs, "\nwithout   :", wants)
+                if outs != wants:
+                    ctx.reject(dict(case, rendered=outs), f"names {a!r}, {b!r}, {a!r} loaded through one bytecode cache rendered {outs}, without the cache {wants}",
+                               "C27:names-that-compile-differently-share-an-entry")
+                else:
+                    ctx.validated()
+    shutil.rmtree(base, ignore_errors=True)
+
+
 # ------------------------------------------------------------------------------------------- source edits a checksum could conflate
 CONFLATE = {
     # class -> spellings that a normalising checksum might identify (they lex / render differently)
@@ -1028,9 +1127,11 @@ def run(ctx):
     run_flips(ctx, jinja2, table)
     run_crash(ctx, jinja2)
     run_shared(ctx, jinja2)
+    run_native_pair(ctx, jinja2)
     run_memcached(ctx, jinja2)
     run_options(ctx, jinja2)
     run_conflate(ctx, jinja2)
+    run_aliases(ctx, jinja2)
     run_unicode(ctx, jinja2)
 
 
@@ -1058,6 +1159,8 @@ def replay(ctx, data):
         run_options(ctx, jinja2)
     elif kind == "conflate":
         run_conflate(ctx, jinja2, only=case)
+    elif kind == "aliases":
+        run_aliases(ctx, jinja2, only=case)
     elif kind == "foreign":
         run_foreign(ctx, jinja2, regen_table(ctx), only=case)
     else:
